@@ -185,6 +185,53 @@ fn flip(l: &NodeLabel, i: u32) -> NodeLabel {
     NodeLabel::new(b, l.label_len)
 }
 
+/// BOUNDED stand-in for the set operations (second sentence of C17): all multisets of <= 3 canonical labels of one length L <= `bits`
+/// (the binary-searchable path) against the unsorted path on the same labels, and against the bit-string meaning:
+/// partition(p) = the Zero/One split of the elements that properly extend p; lcp = longest common prefix; contains_prefix.
+fn set_ops_exhaustive(bits: u32, out: &mut Vec<Failure>) -> u64 {
+    use akd_core::{ExampleLabel, ExperimentalConfiguration, WhatsAppV1Configuration};
+    let mut n = 0u64;
+    let mk = |len: u32, val: u32| { let mut b = [0u8; 32]; for i in 0..len { if (val >> (len - 1 - i)) & 1 == 1 { b[(i / 8) as usize] |= 1 << (7 - (i % 8)); } } NodeLabel::new(b, len) };
+    let sorted = |mut v: Vec<NodeLabel>| { v.sort(); v };
+    for len in 1..=bits {
+        let all: Vec<NodeLabel> = (0..(1u32 << len)).map(|v| mk(len, v)).collect();
+        let mut sets: Vec<Vec<NodeLabel>> = vec![];
+        for a in &all { sets.push(vec![*a]); for b in &all { sets.push(vec![*a, *b]); for c in &all { sets.push(vec![*a, *b, *c]); } } }
+        for set in sets {
+            // every common prefix of the set (as bit strings), plus one non-common prefix to exercise the dropping path
+            let mut k = len; for x in &set { let mut t = 0; while t < len && bit(x, t) == bit(&set[0], t) { t += 1; } k = k.min(t); }
+            for plen in 0..=k {
+                let mut pb = [0u8; 32];
+                for i in 0..plen { if bit(&set[0], i) { pb[(i / 8) as usize] |= 1 << (7 - (i % 8)); } }
+                let prefix = NodeLabel::new(pb, plen);
+                for cfg in 0..2 {
+                    let r = if cfg == 0 { akd::vx_export::c17_set_ops::<WhatsAppV1Configuration>(&set, prefix) } else { akd::vx_export::c17_set_ops::<ExperimentalConfiguration<ExampleLabel>>(&set, prefix) };
+                    let ((la, ra), (lu, ru), lcp_a, lcp_u, cp_a, cp_u, is_sorted) = r;
+                    n += 1;
+                    let exp_l = sorted(set.iter().filter(|x| plen < x.label_len && !bit(x, plen)).cloned().collect());
+                    let exp_r = sorted(set.iter().filter(|x| plen < x.label_len && bit(x, plen)).cloned().collect());
+                    let exp_cp = set.iter().any(|x| pfx(&prefix, x));
+                    let mut bad = None;
+                    if !is_sorted { bad = Some("equal-length set not taken as binary searchable"); }
+                    else if sorted(la.clone()) != exp_l || sorted(ra.clone()) != exp_r { bad = Some("sorted partition differs from the Zero/One split"); }
+                    else if sorted(lu.clone()) != exp_l || sorted(ru.clone()) != exp_r { bad = Some("unsorted partition differs from the Zero/One split"); }
+                    else if lcp_a != lcp_u { bad = Some("set lcp differs between sorted and unsorted path"); }
+                    else if !(lcp_a.label_len == k && canon(&lcp_a) && agree(&lcp_a, &set[0], k)) { bad = Some("set lcp is not the longest common prefix"); }
+                    else if cp_a != exp_cp || cp_u != exp_cp { bad = Some("contains_prefix differs from the bit-string meaning"); }
+                    if let Some(why) = bad {
+                        if out.len() < 8 {
+                            out.push(Failure { clause: "node_label/AzksElementSet#set_ops".into(), case: vec!["c17".into(), "setops".into()],
+                                input: format!("labels {:?} prefix {} (cfg {cfg})", set.iter().map(show).collect::<Vec<_>>(), show(&prefix)),
+                                expected: "sorted path == unsorted path == bit-string meaning".into(), observed: why.into(), finding_id: None });
+                        }
+                    }
+                }
+            }
+        }
+    }
+    n
+}
+
 pub fn search(seed: u64, full: bool) -> SearchResult {
     std::panic::set_hook(Box::new(|_| {}));
     let mut out = vec![];
@@ -253,15 +300,20 @@ pub fn search(seed: u64, full: bool) -> SearchResult {
         }
         if out.len() > 50 { break; }
     }
+    n += set_ops_exhaustive(if full { 4 } else { 3 }, &mut out);
     let _ = std::panic::take_hook();
     SearchResult { evaluations: n, failures: out,
-        summary: format!("all label pairs up to {maxbits} bits (canonical and with stray bits) x {{is_prefix_of, lcp (both configurations), get_prefix_ordering, cmp}}, get_bit_at/get_prefix on each; all lengths 8k-1, 8k, 8k+1 with patterns 00 ff aa 55 80 01 and related labels") }
+        summary: format!("BOUNDED set operations: all multisets of <= 3 equal-length labels of <= 3/4 bits x every common prefix; all label pairs up to {maxbits} bits (canonical and with stray bits) x {{is_prefix_of, lcp (both configurations), get_prefix_ordering, cmp}}, get_bit_at/get_prefix on each; all lengths 8k-1, 8k, 8k+1 with patterns 00 ff aa 55 80 01 and related labels") }
 }
 
 pub fn replay(case: &[&str]) -> (bool, String) {
     std::panic::set_hook(Box::new(|_| {}));
-    let a = parse(case[1]);
     let mut out = vec![];
+    if case[0] == "setops" {
+        set_ops_exhaustive(3, &mut out);
+        return match out.first() { Some(f) => (true, format!("{}: expected {}, observed {}", f.input, f.expected, f.observed)), None => (false, "holds".into()) };
+    }
+    let a = parse(case[1]);
     match case[0] {
         "get_bit_at" | "get_prefix" | "unary" => { check_unary(&a, &mut out); }
         _ => {
